@@ -20,9 +20,9 @@ env = dict(os.environ, CARGO_NET_OFFLINE='true', SEQIO_VERIF_DIR=VD, RUST_BACKTR
 env.pop('VERIF_SCALE', None)
 
 
-def sh(cmd, cwd=None, timeout=3000):
+def sh(cmd, cwd=None, timeout=3000, merge=False):
     try:
-        p = subprocess.run(cmd, cwd=cwd, env=env, stdout=subprocess.PIPE, stderr=subprocess.DEVNULL, timeout=timeout)
+        p = subprocess.run(cmd, cwd=cwd, env=env, stdout=subprocess.PIPE, stderr=subprocess.STDOUT if merge else subprocess.DEVNULL, timeout=timeout)
         return p.returncode, p.stdout.decode(errors='replace')
     except subprocess.TimeoutExpired:
         return 124, 'TIMEOUT'
@@ -37,7 +37,8 @@ assert rc == 0, out
 for crate in ('harness', 'sched'):
     shutil.copytree(V + '/' + crate, ROOT + '/' + crate, ignore=shutil.ignore_patterns('target'))
     p = ROOT + '/' + crate + '/Cargo.toml'
-    open(p, 'w').write(open(p).read().replace('path = "/repo"', 'path = "%s"' % REPO))
+    text = open(p).read().replace('path = "/repo"', 'path = "%s"' % REPO)
+    open(p, 'w').write(text)
 # sched includes engine.rs/util.rs of the harness by relative path: the copy keeps the same layout
 os.makedirs(VD)
 shutil.copytree(V + '/replays', VD + '/replays')
@@ -45,7 +46,7 @@ shutil.copy(V + '/KNOWN_FINDINGS.txt', VD)
 
 
 def build(crate):
-    return sh(['cargo', 'build', '--release', '--offline'], cwd=ROOT + '/' + crate)
+    return sh(['cargo', 'build', '--release', '--offline'], cwd=ROOT + '/' + crate, merge=True)
 
 
 def run(cid):
